@@ -408,6 +408,37 @@ def cli_case(case, env):
         else:
             env.viol("C08:heading-%s:blocks-differ-from-single-threaded" % tname,
                      "-j%d output is not a permutation of the -j1 records" % n, rp2)
+    # multi-line search over a directory in which text files alternate with
+    # empty ones: a per-thread searcher goes from one file to the next, and
+    # what an empty file "contains" must not depend on which file came before
+    t3 = os.path.join(env.tmp, "t3")
+    os.makedirs(t3)
+    for i in range(rng.range(6, 16)):
+        with open(os.path.join(t3, "h%02d.txt" % i), "wb") as f:
+            if i % 2 == 0:
+                f.write(b"".join(b"%s %d in file %d\n" % (rng.pick(WORDS).encode(), j, i) for j in range(rng.range(1, 20))))
+    uargs = ["--no-config", "--color", "never", "--no-heading", "-n", "-U", "-e", "needle \\d+ in file \\d+\\n"]
+    uref = common.run_rg(uargs + ["-j1", "t3"], env.tmp, env.home, timeout=120)
+    for n in rng.sample([2, 3, 4, 8], 2):
+        rep["evaluations"] += 1
+        ugot = common.run_rg(uargs + ["-j%d" % n, "t3"], env.tmp, env.home, timeout=120)
+        if uref is None or ugot is None:
+            env.inconclusive("watchdog")
+            continue
+        env.count("rg_runs")
+        env.count("multiline_empty_file_runs")
+        bad = None
+        for which, out in (("-j1", uref[1]), ("-j%d" % n, ugot[1])):
+            for ln in out.split(b"\n"):
+                m = re.match(rb"^t3/h(\d+)\.txt:", ln)
+                if m and (int(m.group(1)) % 2 == 1 or (b"in file %d" % int(m.group(1))) not in ln):
+                    bad = "%s attributes %s, which that file does not contain" % (which, esc(ln[:80]))
+        if bad is None and (sorted(uref[1].split(b"\n")) != sorted(ugot[1].split(b"\n")) or uref[0] != ugot[0]):
+            bad = "-j%d output is not a permutation of the -j1 lines" % n
+        if bad:
+            env.viol("C08:multiline-empty-files:blocks-differ-from-single-threaded", bad,
+                     {"kind": "cli", "seed": case["seed"], "argv": uargs + ["-j%d" % n, "t3"],
+                      "single": esc(uref[1][:1500]), "multi": esc(ugot[1][:1500])})
     env.sample({"files": nfiles, "walk_args": wargs, "roots": len(roots), "pattern": pattern, "modes": [m[0] for m in modes], "threads": threads,
                 "repetitions": reps})
 
